@@ -8,7 +8,7 @@ for d in "$@"; do
   patch=$d/patch.diff
   for alt in $d/patch_on_*.diff; do [ -f "$alt" ] && patch=$alt; done
   if ! git -C $wt apply --check $patch 2>/dev/null; then echo "$name NOAPPLY" >> $out; continue; fi
-  r=$(MUT_REPO=$wt timeout 3000 /verif/tools/try_mutant.sh $patch $prop 2>&1 | grep -E "^$prop " | head -1 | cut -c1-200)
+  r=$(MUT_REPO=$wt timeout 3000 ${VERIF_DIR:-/verif}/tools/try_mutant.sh $patch $prop 2>&1 | grep -E "^$prop " | head -1 | cut -c1-200)
   echo "$name $r" >> $out
 done
 echo "DONE $wt" >> $out
